@@ -496,21 +496,23 @@ def lib_adapter(which, config):
             ins, outs = {"i": i}, {"o": o}
         elif kind == "async":
             i, o = Signal(name="i"), Signal(name="o")
-            dut = cdc.AsyncFFSynchronizer(i, o, o_domain="o", stages=stages, async_edge=config["async_edge"])
-            doms = [DomainSpec("o"), DomainSpec("x")]
+            on_ = config.get("o_name", "o")
+            dut = cdc.AsyncFFSynchronizer(i, o, o_domain=on_, stages=stages, async_edge=config["async_edge"])
+            doms = [DomainSpec(on_), DomainSpec("x")]
             extra, ins, outs = {"a": i}, {}, {"o": o}
         elif kind == "reset":
             i, o = Signal(name="arst"), Signal(name="o_rst")
-            inner = cdc.ResetSynchronizer(i, domain="o", stages=stages)
+            on_ = config.get("o_name", "o")
+            inner = cdc.ResetSynchronizer(i, domain=on_, stages=stages)
 
             class Obs(Elaboratable):
                 def elaborate(self, platform):
                     m = Module()
                     m.submodules.inner = inner
-                    m.d.comb += o.eq(ResetSignal("o"))
+                    m.d.comb += o.eq(ResetSignal(on_))
                     return m
             dut = Obs()
-            doms = [DomainSpec("o", drive_rst=False), DomainSpec("x")]
+            doms = [DomainSpec(on_, drive_rst=False), DomainSpec("x")]
             extra, ins, outs = {"a": i}, {}, {"o_rst": o}
         else:
             dut = cdc.PulseSynchronizer("i", "o", stages=stages)
@@ -520,7 +522,9 @@ def lib_adapter(which, config):
         def tr(st):
             if st["k"] == "set":
                 return ("set", {"i": st["i"]})
-            return ("drive", {(k if k == "a" else ("o.rst" if k == "r" else k + ".clk")): v for k, v in st["l"].items()})
+            on2 = config.get("o_name", "o") if kind in ("async", "reset") else "o"
+            return ("drive", {(k if k == "a" else ("o.rst" if k == "r" else (on2 if k == "o" else k) + ".clk")): v
+                              for k, v in st["l"].items()})
         return dut, doms, ins, outs, tr, extra
     else:
         from props import c16
